@@ -446,7 +446,7 @@ def run():
         v, mk = judge(rules, cat)
         return '0' in mk
 
-    def report(rules, cat, n_before):
+    def report(rules, cat, n_before, only_lf=False):
         """shrink one falsified (rules, category), classify it, chk.fail; returns (kind, class)"""
         pieces = vlib.shrink_list(split_pieces(rules), lambda ps: still_bad(''.join(ps), cat), max_steps=150)
         rules = ''.join(pieces)
@@ -470,6 +470,8 @@ def run():
                    else 'dot_excludes_lf')
             rep['class'] = cls
         rep['kind'] = kind
+        if only_lf and kind != 'lf_in_category':
+            return kind, cls        # the same non-LF defect was already reported on an LF-free category
         chk.fail('CategoryFilter(%r) gives %s for category %r, type %s; ordered rule evaluation prescribes %s'
                  % (rules, 'pass' if v[ti:ti + 1] == '1' else 'drop', cat, TYPES[ti], 'pass' if spec[ti:ti + 1] == '1' else 'drop'),
                  rep, kind=kind)
@@ -489,8 +491,7 @@ def run():
         for group in (final_lf, inner_lf):
             if group:
                 f = min(group, key=size)
-                kc = report(f[0], f[1], len(falsified))
-                seen.add(kc)
+                seen.add(report(f[0], f[1], len(falsified), only_lf=bool(plain)))
     if dis_model:
         r, c, x, y = min(dis_model, key=lambda f: len(f[0]) + len(f[1]))
         chk.broke('correspondence: model (with the translated configuration) and CategoryFilter differ on %d (rules, category) pairs, '
